@@ -253,7 +253,7 @@ func TestVerif_C18(t *testing.T) {
 	env.state.logger = logger
 	defer func() { logger = savedLogger }()
 	admin := c18BuildAdmin(env)
-	c18AdminSweep(res, admin, "start-up", "")
+	c18AdminSweep(res, admin, "start-up", "", "")
 	attrCases := &c18AttrCases{}
 	routes := verifRouteTable()
 	harvest := c18LoadHarvest(t)
@@ -274,7 +274,7 @@ func TestVerif_C18(t *testing.T) {
 		req.AddCookie(creds[2].cookie)
 		env.serve(req)
 	}
-	c18AdminSweep(res, admin, "users with payload names were added", "")
+	c18AdminSweep(res, admin, "users with payload names were added", "", "")
 	probe := func(route verifRoute, mode, credName string, cookie *http.Cookie, payload string) {
 		target := route.Path
 		form := url.Values{}
@@ -346,11 +346,11 @@ func TestVerif_C18(t *testing.T) {
 		rq.Header.Set("Accept", "text/html")
 		env.serve(rq)
 		res.bump("refused_requests_with_payload")
-		c18AdminSweep(res, admin, "a rejected login, an unknown path and a query string carrying the payload", "")
+		c18AdminSweep(res, admin, "a rejected login (form and Basic), an unknown path and a query string carrying the payload", "", p)
 	}
 	for pi, p := range allPayloads {
 		if verifThorough() || pi%4 == 0 || pi >= len(c18BasePayloads()) {
-			c18AdminSweep(res, admin, "nothing (the admin request itself is hostile)", p)
+			c18AdminSweep(res, admin, "nothing (the admin request itself is hostile)", p, p)
 		}
 	}
 	for _, route := range routes {
@@ -385,7 +385,7 @@ func TestVerif_C18(t *testing.T) {
 		}
 	}
 
-	c18AdminSweep(res, admin, "the generic sweep of the service port", "")
+	c18AdminSweep(res, admin, "the generic sweep of the service port", "", "")
 	// ---- dictionary-driven probes: per route, start from a request that gets as far as the route lets it
 	// today, then (a) replace/add ONE harvested parameter at a time by a payload, for every credential kind,
 	// GET and POST; (b) for the credential kinds on which the base request succeeds, additionally set every
@@ -626,11 +626,11 @@ func TestVerif_C18(t *testing.T) {
 		routeTimes[route.Path] = fmt.Sprintf("%d probes, %d ms", res.counts["harvest_probes"]-probesBefore, time.Since(routeStart).Milliseconds())
 	}
 	res.Extra["harvest_route_cost"] = routeTimes
-	c18AdminSweep(res, admin, "the dictionary-driven probes of the service port", "")
+	c18AdminSweep(res, admin, "the dictionary-driven probes of the service port", "", "")
 	// ---- nested canaries: destinations that are keymaster URLs with canary parameters, on every variant of the
 	// second-factor page (c18b.go)
 	c18NestedStage(env, res, routes, hv, attrCases, otpFor)
-	c18AdminSweep(res, admin, "the nested-destination logins", "")
+	c18AdminSweep(res, admin, "the nested-destination logins", "", "")
 	// success paths: a completed login / second factor with a hostile destination (a second state whose
 	// web UI accepts the password alone, so that the login handler answers with the redirect itself)
 	env2 := verifSetup(t, func(c *AppConfigFile, dir string) {
